@@ -740,6 +740,13 @@ func (te *tableEngine) PlayerFold(playerID string) error {
 		return ErrGamePlayerNotFound
 	}
 
+	// the round in which the fold is made: read before the action, because the hand may move on to the next round by
+	// itself as soon as the fold has been applied
+	foldRound := ""
+	if te.game != nil && te.game.GetGameState() != nil {
+		foldRound = te.game.GetGameState().Status.Round
+	}
+
 	gs, err := te.game.Fold(gamePlayerIdx)
 	if err == nil {
 		te.table.State.LastPlayerGameAction = te.createPlayerGameAction(playerID, playerIdx, WagerAction_Fold, 0, gs.GetPlayer(gamePlayerIdx))
@@ -748,7 +755,7 @@ func (te *tableEngine) PlayerFold(playerID string) error {
 		playerState := te.table.State.PlayerStates[playerIdx]
 		playerState.GameStatistics.ActionTimes++
 		playerState.GameStatistics.IsFold = true
-		playerState.GameStatistics.FoldRound = te.game.GetGameState().Status.Round
+		playerState.GameStatistics.FoldRound = foldRound
 
 		if playerState.GameStatistics.IsFt3BChance {
 			playerState.GameStatistics.IsFt3B = true
